@@ -438,7 +438,7 @@ def mw_queries(rng, mw, pre, hist):
 def run(ctx):
     rng = ctx.rng
     kb = KB()
-    C = trainer_seg.extract()
+    C = trainer_seg.extract_data()
     ctxs, tlds = C["context_strings"], C["tld_list"]
     kw = {"threshold": C["mw_threshold"], "min_len": C["mw_min_len"], "max_len": C["mw_max_len"]}
     n_hist = ctx.scale(12, 60)
@@ -592,7 +592,7 @@ def replay(ctx, data):
     if "pws" not in inp:
         return []
     kb = KB()
-    C = trainer_seg.extract()
+    C = trainer_seg.extract_data()
     kw = {"threshold": C["mw_threshold"], "min_len": C["mw_min_len"], "max_len": C["mw_max_len"]}
     pre, hist, pws = inp.get("pre", []), inp.get("hist", []), inp["pws"]
     mw = make_detector(pre, hist, kw)
